@@ -57,7 +57,7 @@ Inductive op :=
 | OEChannels (e : nat) | OEArrays (e : nat) (t : bool) | OEEq (e1 e2 : nat)
 | OSDescr (s : nat) | OSCheck (s : nat) | OSChannels (s : nat) | OSPoints (s : nat) | OSDuration (s : nat)
 | OSForge (s : nat) (d f t : bool) | OSAwg (s : nat) (ix : index) | OSSeqx (s : nat) (fl : bool)
-| OSEq (s1 s2 : nat) | OSLen (s : nat).
+| OSEq (s1 s2 : nat) | OSLen (s : nat) | OSSR (s : nat).
 
 Record store := mkStore { bps : list (nat * bp); els : list (nat * elem); sqs : list (nat * seq) }.
 Definition store0 : store := mkStore [] [] [].
@@ -218,6 +218,7 @@ Definition exec (st : store) (o : op) : store * pv :=
   | OSSeqx s fl => obs st (do x <- getS st s; Ok (output_seqx x fl))
   | OSEq s1 s2 => obs st (do a <- getS st s1; do b <- getS st s2; do r <- seq_eqb a b; Ok (PBool r))
   | OSLen s => obs st (do x <- getS st s; Ok (PInt (Z.of_nat (length (sdata x)))))
+  | OSSR s => obs st (do x <- getS st s; Ok (pv_of_val (seq_SR x)))          (* Sequence.SR: the setting, or -1 *)
   end.
 
 Fixpoint run_from (st : store) (l : list op) : list pv :=
